@@ -372,6 +372,10 @@ def judge_continued(scn):
     fails = []
     if n1 != k1 - 1 or r1 != k1:
         return []      # the single-fault rules (judge) own the first error
+    if t1 is None:
+        # the first error was raised at FRAMING level (e.g. the fault pushed the record over the maximum
+        # length): the reader's position in the file is then undefined and continuing means nothing
+        return []
     # records k1+1 .. k2-1 must have been delivered in between
     want_between = cout.items[k1:k2 - 1]
     got_between = out.items[n1:n2]
